@@ -176,7 +176,19 @@ func TestVerifC13MergeChart(t *testing.T) {
 		defer os.RemoveAll(env.root)
 		ctx := context.Background()
 		ndays := rapid.IntRange(1, 8).Draw(t, "ndays")
+		longRange := rapid.IntRange(0, 39).Draw(t, "longRange") == 0
+		if longRange {
+			ndays = rapid.IntRange(360, 372).Draw(t, "ndaysLong") // a range of about a year, mostly empty days
+		}
 		day0 := time.Date(2024, 1, 1, 0, 0, 0, 0, time.UTC).AddDate(0, 0, rapid.IntRange(0, 700).Draw(t, "day0"))
+		if rapid.IntRange(0, 3).Draw(t, "nearBoundary") == 0 {
+			// ranges that straddle a year end, a leap day or a month end
+			anchor := rapid.SampledFrom([]time.Time{
+				time.Date(2025, 1, 1, 0, 0, 0, 0, time.UTC), time.Date(2024, 1, 1, 0, 0, 0, 0, time.UTC), time.Date(2026, 1, 1, 0, 0, 0, 0, time.UTC),
+				time.Date(2024, 2, 29, 0, 0, 0, 0, time.UTC), time.Date(2025, 3, 1, 0, 0, 0, 0, time.UTC), time.Date(2024, 11, 1, 0, 0, 0, 0, time.UTC),
+			}).Draw(t, "anchor")
+			day0 = anchor.AddDate(0, 0, -rapid.IntRange(0, ndays).Draw(t, "beforeAnchor"))
+		}
 		missing := -1
 		if rapid.IntRange(0, 5).Draw(t, "withMissingDay") == 0 {
 			missing = rapid.IntRange(0, ndays-1).Draw(t, "missingDay")
@@ -191,6 +203,9 @@ func TestVerifC13MergeChart(t *testing.T) {
 				continue
 			}
 			n := rapid.SampledFrom([]int{0, 1, 1, 2, 3, 5, 8, 40}).Draw(t, "nreports")
+			if longRange && d%37 != 0 {
+				n = 0
+			}
 			seen := map[float64]bool{}
 			for i := 0; i < n; i++ {
 				r := c13Report(t, ucfg, day, xs)
@@ -356,6 +371,7 @@ func TestVerifC13MergeChart(t *testing.T) {
 		if !bytes.Equal(ref, got) {
 			t.Fatalf("%s: chart output depends on the order of the reports", desc)
 		}
-		vstats.Case(desc, dupX || bigLine || hi > lo, fmt.Sprintf("bigLine:%v", bigLine), fmt.Sprintf("dupX:%v", dupX), fmt.Sprintf("multiDay:%v", hi > lo))
+		vstats.Case(desc, dupX || bigLine || hi > lo, fmt.Sprintf("bigLine:%v", bigLine), fmt.Sprintf("dupX:%v", dupX), fmt.Sprintf("multiDay:%v", hi > lo),
+			fmt.Sprintf("crossYear:%v", start[:4] != end[:4]), fmt.Sprintf("longRange:%v", hi-lo > 300))
 	})
 }
